@@ -10,6 +10,11 @@ from .prims_exec import (CANCELLED, CANCELLED_AND_NOTIFIED, FINISHED, PENDING, R
 T = z3.BoolVal(True)
 
 
+def _refs_present(S, present=True):
+    return [S[f"ex.{f}?"] == present for f in ("_executor_manager_thread", "_processes_management_lock",
+                                               "_executor_manager_thread_wakeup", "_call_queue", "_result_queue")]
+
+
 def x1_dispatch_vs_cancel(n=2):
     """Manager thread runs the real add_call_item_to_queue while a user thread cancels a future."""
     sl = ExecSlice(n_ids=n, n_workers=2, callq_cap=n)
@@ -32,7 +37,7 @@ def x1_dispatch_vs_cancel(n=2):
     sl.finish()
     full = (1 << n) - 1
     init = z3.And(S["pending.m"] == full, S["running.m"] == 0, S["workids.head"] == 0, S["workids.tail"] == n,
-                  z3.ULE(S["callq.free"], n), z3.ULT(S["in.which"], n),
+                  z3.ULE(S["callq.free"], n), z3.ULT(S["in.which"], n), *_refs_present(S),
                   *[z3.Or(S[f"futures.st.{i}"] == PENDING, S[f"futures.st.{i}"] == CANCELLED) for i in range(n)])
     put = S["callq.put"]
     safety = {
@@ -70,6 +75,8 @@ def _consistent(S, n):
                  z3.Implies(inr, st == RUNNING),
                  z3.Implies(z3.And(inp, z3.Not(queued), z3.Not(inr)), z3.BoolVal(False)),
                  z3.Implies(z3.Not(exists), z3.And(z3.Not(inp), z3.Not(inr))),
+                 # ids that left the bookkeeping are resolved (result delivered) or were cancelled and dropped
+                 z3.Implies(z3.And(exists, z3.Not(inp)), z3.Or(st == FINISHED, st == CANCELLED_AND_NOTIFIED)),
                  S[f"futures.sets.{i}"] == 0]
     return cons
 
@@ -101,6 +108,7 @@ def x2_feeder_error_vs_dispatch(n=2):
     full = (1 << n) - 1
     init = z3.And(S["pending.m"] == full, S["running.m"] == 0, S["workids.head"] == 0, S["workids.tail"] == n,
                   S["callq.free"] == n + 1, S["wakeup.pipe.n"] == 0, S["flags.shutdown"] == False, S["flags.broken?"] == False,
+                  *_refs_present(S),
                   *[S[f"futures.st.{i}"] == PENDING for i in range(n)])
     failed, put = S["g.failed"], S["callq.put"]
     per = []
@@ -141,7 +149,7 @@ def _obs_basic(sl):
     sl.obs.define("saw_shutdown", setf("g.saw_shutdown"), fused=True)
 
 
-def x3_worker_exit_vs_submit(with_user=True, collected=False, nowait_shutdown=False):
+def x3_worker_exit_vs_submit(with_user=True, collected=False, nowait_shutdown=False, shutdown_thread=False):
     """The only worker of a max_workers=1 pool has announced its exit (idle time-out / memory-leak path). The
     manager thread processes the announcement (real process_result_item) while a user thread submits a task
     (real submit -> _ensure_executor_running -> _adjust_process_count)."""
@@ -152,6 +160,9 @@ def x3_worker_exit_vs_submit(with_user=True, collected=False, nowait_shutdown=Fa
     sl.thread("M", "manager_pid_message", [("o", "mt"), ("rec", "Msg", {"k": ("c", 1), "a": ("c", 0), "e": ("c", False), "?": ("c", True)})])
     if with_user:
         sl.thread("U", "user_submit", [("o", "ex"), ("o", "obs")])
+    if shutdown_thread:
+        # the user releases the executor with the real shutdown(wait=False) while the exit is being handled
+        sl.thread("U2", "user_shutdown_nowait", [("o", "ex")])
     sl.thread("Wk", "leaving_worker", [("o", "ptable"), ("c", 0)])
     sl.finish()
     init = z3.And(*_consistent(S, n), S["workids.tail"] == S["workids.head"],  # nothing left undispatched: the worker was idle
@@ -162,10 +173,9 @@ def x3_worker_exit_vs_submit(with_user=True, collected=False, nowait_shutdown=Fa
                   S["flags.broken?"] == False, S["weakref.dead"] == collected,
                   S["flags.shutdown"] == nowait_shutdown,
                   # shutdown(wait=False) drops the references (and only shutdown does)
-                  S["ex._processes_management_lock?"] == (not nowait_shutdown),
-                  S["ex._executor_manager_thread_wakeup?"] == (not nowait_shutdown),
+                  *_refs_present(S, not nowait_shutdown),
                   S["running.m"] == S["pending.m"])   # whatever is pending was dispatched (possibly still queued in the pipe)
-    lost = z3.And(sl.all_ended(), S["pending.m"] != 0, S["processes.m"] == 0)
+    lost = z3.And(sl.all_ended(), S["pending.m"] != 0, S["processes.m"] == 0, z3.Not(S["flags.broken?"]))
     safety = {"C07/C01 the manager thread died while handling a clean worker exit": S["fail"] != 0,
               "C07 a clean time-out exit marked the pool broken": S["flags.broken?"],
               "C08 more workers registered than max_workers": z3.UGT(popcount(S["processes.m"], 2), S["ex._max_workers"]),
@@ -178,3 +188,90 @@ def x3_worker_exit_vs_submit(with_user=True, collected=False, nowait_shutdown=Fa
         "initial state: max_workers=1, its only worker idle and past its exit announcement, 0..1 tasks dispatched before",
         "the leaving worker waits for its exit lock (30 s timeout = free transition) and then ends; process start/join are primitives",
         "starting the manager thread (_start_executor_manager_thread) is outside: the thread exists in every slice"])
+
+
+def x4_wakeup_vs_submit():
+    """The manager thread is in its wait (real wait_result_broken_or_wakeup) while a user thread submits
+    (real submit). The wakeup pipe is bounded: a send into a full pipe blocks, holding the shutdown lock."""
+    n = 2
+    sl = ExecSlice(n_ids=n, n_workers=2, callq_cap=3, wakeup_cap=1)
+    S = sl.S
+    _obs_basic(sl)
+    sl.thread("M", "manager_wait_once", [("o", "mt"), ("o", "obs")])
+    sl.thread("U", "user_submit", [("o", "ex"), ("o", "obs")])
+    sl.finish()
+    init = z3.And(*_consistent(S, n), z3.ULE(S["workids.tail"], 1),
+                  S["processes.m"] == 1, S["ptable.alive"] == 1, S["ptable.started"] == 1, S["ptable.exitlock"] == 0,
+                  S["ptable.next"] == 1, S["ex._max_workers"] == 1, S["mgmt.sl.v"] == 1, S["shutdown_lock.v"] == 1,
+                  z3.ULE(S["wakeup.pipe.n"], 1), S["callq.free"] == 3, S["resq.pipe.n"] == 0,
+                  S["flags.broken?"] == False, S["weakref.dead"] == False, S["flags.shutdown"] == False,
+                  *_refs_present(S))
+    safety = {"C01 a management or user thread died on an uncaught exception": S["fail"] != 0,
+              "C02 the pool was declared broken although no worker died": S["flags.broken?"]}
+    stuck = {"C01 submit() and the manager thread block each other for ever (wakeup pipe full vs shutdown lock)":
+                 z3.Not(sl.all_ended())}
+    witness = z3.And(sl.all_ended(), S["g.submitted"], S["g.waited"])
+    return sl, dict(init=init, safety=safety, stuck=stuck, witness=witness, assumptions=[
+        "wakeup pipe capacity abstracted to 1 message (real: 64 KiB = 16384 empty messages): a blocked send models the full pipe",
+        "initial state: healthy 1-worker pool, 0..1 wake-ups already in the pipe, nothing in the result pipe"])
+
+
+def x5_shutdown_nowait_vs_wait():
+    """shutdown(wait=False) (real) while the manager thread sits in its wait on an idle pool."""
+    n = 2
+    sl = ExecSlice(n_ids=n, n_workers=2, callq_cap=3, wakeup_cap=2)
+    S = sl.S
+    _obs_basic(sl)
+    sl.thread("M", "manager_wait_once", [("o", "mt"), ("o", "obs")])
+    sl.thread("U", "user_shutdown_nowait", [("o", "ex")])
+    sl.finish()
+    init = z3.And(*_consistent(S, n), S["workids.tail"] == 0, S["pending.m"] == 0,
+                  S["processes.m"] == 1, S["ptable.alive"] == 1, S["ptable.started"] == 1, S["ptable.exitlock"] == 0,
+                  S["ptable.next"] == 1, S["ex._max_workers"] == 1, S["mgmt.sl.v"] == 1, S["shutdown_lock.v"] == 1,
+                  S["wakeup.pipe.n"] == 0, S["callq.free"] == 3, S["resq.pipe.n"] == 0,
+                  S["flags.broken?"] == False, S["weakref.dead"] == False, S["flags.shutdown"] == False,
+                  *_refs_present(S))
+    M = [t for t in sl.sys.threads if t.name == "M"][0]
+    U = [t for t in sl.sys.threads if t.name == "U"][0]
+    from .model import END
+    safety = {"C05 a thread died on an uncaught exception during shutdown(wait=False)": S["fail"] != 0,
+              "C05 graceful shutdown flagged the pool broken": S["flags.broken?"]}
+    stuck = {"C05 shutdown(wait=False) returned but the manager thread never learns about it (idle pool: it stays in wait() for ever)":
+                 z3.And(S[U.pcvar] == z3.BitVecVal(END, 8), S[M.pcvar] != z3.BitVecVal(END, 8)),
+             "C05 the manager woke up but does not see the shutdown request":
+                 z3.And(sl.all_ended(), z3.Not(S["g.saw_shutdown"])),
+             "C01 shutdown(wait=False) itself blocked": S[U.pcvar] != z3.BitVecVal(END, 8)}
+    witness = z3.And(sl.all_ended(), S["g.saw_shutdown"])
+    return sl, dict(init=init, safety=safety, stuck=stuck, witness=witness, assumptions=[
+        "initial state: idle healthy pool (nothing pending, nothing in the pipes), executor object alive"])
+
+
+def x6_terminate_broken(n=2):
+    """The manager thread handles a broken pool (real terminate_broken -> kill_workers -> join_executor_internals)
+    from a state in which some submitted futures may already have been cancelled by the user."""
+    sl = ExecSlice(n_ids=n, n_workers=2, callq_cap=3, wakeup_cap=2)
+    S = sl.S
+    _obs_basic(sl)
+    sl.obs.define("the_bpe", lambda a, k, t, S_: [Outcome(T, {}, ("rec", "Exc", {"t": BV(5), "?": T}), None, "obs")],
+                  ("rec", "Exc", {"t": "int", "?": "bool"}), fused=True)
+    sl.thread("M", "manager_terminate", [("o", "mt"), ("o", "obs")])
+    sl.finish()
+    init = z3.And(*_consistent(S, n), S["pending.m"] != 0,
+                  S["ptable.alive"] == S["processes.m"], S["ptable.started"] == S["processes.m"], S["ptable.exitlock"] == 0,
+                  S["ex._max_workers"] == 2, S["mgmt.sl.v"] == 1, S["shutdown_lock.v"] == 1,
+                  z3.ULE(S["wakeup.pipe.n"], 1), z3.ULE(S["callq.free"], 3), S["resq.pipe.n"] == 0,
+                  S["flags.broken?"] == False, S["flags.shutdown"] == False, *_refs_present(S))
+    pend0 = [bit(S["pending.m"], i, n) for i in range(n)]
+    safety = {"C02 the manager thread died while failing the pending futures (pool never flagged, others left pending)": S["fail"] != 0}
+    from .prims_exec import R_TERMINATED
+    undone = z3.Or(*[z3.And(S[f"futures.st.{i}"] != FINISHED, S[f"futures.st.{i}"] != CANCELLED,
+                            S[f"futures.st.{i}"] != CANCELLED_AND_NOTIFIED, z3.ULT(BV(i), S["workids.tail"])) for i in range(n)])
+    stuck = {"C02 after terminate_broken some future is still unresolved": z3.And(sl.all_ended(), undone),
+             "C02 after terminate_broken the pool is not flagged broken or workers are still registered":
+                 z3.And(sl.all_ended(), z3.Or(z3.Not(S["flags.broken?"]), S["processes.m"] != 0, S["pending.m"] != 0)),
+             "C01 terminate_broken blocks for ever": z3.Not(sl.all_ended())}
+    known = {"F6": z3.Or(*[z3.Or(S[f"futures.st.{i}"] == CANCELLED) for i in range(n)])}
+    witness = sl.all_ended()
+    return sl, dict(init=init, safety=safety, stuck=stuck, witness=witness, known=known, assumptions=[
+        f"initial state: {n} work ids in any consistent bookkeeping state (queued ones PENDING or user-CANCELLED), 0..2 live workers",
+        "kill_process_tree = kill + join (its tree walk is C06); the back-off loop of shutdown_workers is not entered (no live worker left)"])
